@@ -34,7 +34,9 @@ Matches(s, e) ==
 StateOK == \A o \in Objs : Matches(objs'[o], Ev.st[o])
 
 \* mutators: the model decides between "rejected (ro), nothing changes" and the effect
-ErrOK == Ev.err = out'.err
+\* (the driver writes "ro" when the message mentions "readonly", else the message; only whether the
+\* operation was rejected is compared)
+ErrOK == (Ev.err = "") = (out'.err = "")
 
 TrReset == /\ IsEvent("Reset")
            /\ objs' = [o \in Objs |-> IF o = 1 THEN C!EmptyObj ELSE C!NoObj]
